@@ -29,6 +29,7 @@ typedef long foo_t; //only_for_context opencl
 typedef int bar_t; //only_for_context cuda cpu_serial
 //include_file inc_gpu.h for_context opencl cuda
 //include_file inc_cpu.h for_context cpu_serial cpu_openmp
+//include_file inc_all.h for_context cpu_serial cpu_openmp opencl cuda
 /*gpufun*/ double twice(/*gpuglmem*/ const double* x, int i){ return 2*x[i]; }
 /*gpukern*/
 void scale(const int nn, /*gpuglmem*/ const double* /*restrict*/ xin, /*gpuglmem*/ double* /*restrict*/ yout){
@@ -42,7 +43,21 @@ void scale(const int nn, /*gpuglmem*/ const double* /*restrict*/ xin, /*gpuglmem
   //end_vectorize
 }
 """
-FILES = {"./inc_gpu.h": ["#define ON_GPU 1\n", "int gpu_only;\n"], ".//inc_gpu.h": ["#define ON_GPU 1\n", "int gpu_only;\n"], "./inc_cpu.h": ["#define ON_CPU 1\n"], ".//inc_cpu.h": ["#define ON_CPU 1\n"]}
+# line classes are crossed with their ORIGIN: the annotated lines of inc_all.h are the same classes as in
+# the top-level sample but arrive through the include splice (seeded change C16-a resolved the
+# context restriction before the splice, so restricted lines of an included file stayed active)
+INC_ALL = [
+    "#define IN_ALL 1\n",
+    "typedef long inc_foo_t; //only_for_context opencl\n",
+    "typedef int inc_bar_t; //only_for_context cuda cpu_openmp\n",
+    "void incfun(const int mm, /*gpuglmem*/ double* qq){\n",
+    "  //vectorize_over kk mm\n",
+    "    qq[kk] = 0;\n",
+    "  //end_vectorize\n",
+    "} /* end incfun */\n",
+]
+_F = {"inc_gpu.h": ["#define ON_GPU 1\n", "int gpu_only;\n"], "inc_cpu.h": ["#define ON_CPU 1\n"], "inc_all.h": INC_ALL}
+FILES = {pre + k: v for k, v in _F.items() for pre in ("./", ".//")}
 
 
 def _specialise(model, source, target, osname="posix"):
@@ -98,35 +113,38 @@ def s1(cx):
         lines = out.split("\n")
         txt = out
         # ---- S7 pass-through of unannotated lines
-        for plain in ("#include <stdint.h>", "  int aa = nn*3 + 1;   /* plain line */", "  for (int kk=0; kk<3; kk++){ aa += kk; }", "    yout[ii] = twice(xin, ii) + aa;", "    yout[jj] += 1;", "}"):
+        for plain in ("#include <stdint.h>", "  int aa = nn*3 + 1;   /* plain line */", "  for (int kk=0; kk<3; kk++){ aa += kk; }", "    yout[ii] = twice(xin, ii) + aa;", "    yout[jj] += 1;", "}",
+                      "#define IN_ALL 1", "    qq[kk] = 0;", "} /* end incfun */"):
             cx.check(plain in lines, f, construct=f"[{tgt}] plain line `{plain.strip()}`", detail="unannotated text passes through unchanged", bad_detail="an unannotated line was altered or dropped", sub="S7")
         # ---- S6 only_for_context
-        for line, ctxs in (("typedef long foo_t; //only_for_context opencl", ["opencl"]), ("typedef int bar_t; //only_for_context cuda cpu_serial", ["cuda", "cpu_serial"])):
+        for line, ctxs in (("typedef long foo_t; //only_for_context opencl", ["opencl"]), ("typedef int bar_t; //only_for_context cuda cpu_serial", ["cuda", "cpu_serial"]),
+                           ("typedef long inc_foo_t; //only_for_context opencl", ["opencl"]), ("typedef int inc_bar_t; //only_for_context cuda cpu_openmp", ["cuda", "cpu_openmp"])):
             active = line in lines
             commented = ("//" + line) in lines
             want_active = tgt in ctxs
             cx.check(active == want_active and commented == (not want_active), f, construct=f"[{tgt}] `{line}`", detail="active only in the named contexts, commented out elsewhere",
-                     bad_detail=f"line restricted to {ctxs} is {'active' if active else 'commented' if commented else 'missing'} on {tgt}", sub="S6")
+                     bad_detail=f"line restricted to {ctxs} is {'active' if active else 'commented' if commented else 'missing'} on {tgt}" + (" (line arrives through //include_file)" if "inc_" in line else ""), sub="S6")
         # ---- S9 include splice
         for marker, ctxs in (("#define ON_GPU 1", ["opencl", "cuda"]), ("#define ON_CPU 1", ["cpu_serial", "cpu_openmp"])):
             present = marker in lines
             cx.check(present == (tgt in ctxs), f, construct=f"[{tgt}] include providing `{marker}`", detail="file spliced only for the contexts it names", bad_detail=f"include for {ctxs} is {'spliced' if present else 'not spliced'} on {tgt}", sub="S9")
         cx.check(not any("//include_file" in l and not l.lstrip().startswith("//") for l in lines) and "int gpu_only;" in lines if tgt in ("opencl", "cuda") else True, f, construct=f"[{tgt}] included lines verbatim", detail="included file content reaches the output", bad_detail="included file content is missing", sub="S9")
-        # ---- vectorised blocks
-        body = txt[txt.index("int aa") :]
+        # ---- vectorised blocks (two in the top-level source, one arriving through the include splice)
+        is_plain = lambda l: l == "  for (int kk=0; kk<3; kk++){ aa += kk; }" or l.startswith("void incfun(")
         blocks = []
-        for var in ("ii", "jj"):
-            stmt = f"yout[{var}]"
-            i = body.index(stmt)
-            opener = body[:i]
-            # opener: text between the previous plain statement and the block body
-            start = max(opener.rfind("aa += kk; }"), opener.rfind("//end autovectorized"))
-            opener = opener[start:]
-            opener = opener[opener.index("\n") + 1 :] if "\n" in opener else opener
-            after = body[i:]
-            closer = after[after.index("\n") + 1 :].split("\n")[0]
-            blocks.append((var, opener, closer))
-        for var, opener, closer in blocks:
+        for var, lim, stmt in (("ii", "nn", "yout[ii]"), ("jj", "nn", "yout[jj]"), ("kk", "mm", "qq[kk]")):
+            k = next((n for n, l in enumerate(lines) if stmt in l), None)
+            cx.need(k is not None, f"[{tgt}] body statement {stmt} not found in the specialised sample")
+            j = k - 1
+            op = []
+            while j >= 0 and not is_plain(lines[j]) and "end autovectorized" not in lines[j]:
+                op.append(lines[j])
+                j -= 1
+            cx.need(j >= 0, f"[{tgt}] start of the opener of block {var} not found")
+            opener = "\n".join(reversed(op))
+            closer = lines[k + 1]
+            blocks.append((var, lim, opener, closer))
+        for var, lim, opener, closer in blocks:
             o = re.sub(r"//[^\n]*", "", opener)
             c = re.sub(r"//[^\n]*", "", closer)
             bal = (o.count("{") - o.count("}")) + (c.count("{") - c.count("}"))
@@ -134,11 +152,11 @@ def s1(cx):
             on = " ".join(o.split())
             if tgt.startswith("cpu"):
                 mm = re.fullmatch(r"for \(int (\w+)\s*=\s*0; (\w+)\s*<\s*(\w+); (\w+)\+\+\)\s*\{", on)
-                ok = mm is not None and mm.group(1) == mm.group(2) == mm.group(4) == var and mm.group(3) == "nn"
+                ok = mm is not None and mm.group(1) == mm.group(2) == mm.group(4) == var and mm.group(3) == lim
                 cx.check(ok, f, construct=f"[{tgt}] `{on}`", detail="serial loop from 0 while < n, unit step: body once per index 0..n-1 (none for n = 0)", bad_detail="CPU loop is not `for (int v=0; v<n; v++){`", sub="S2")
             elif tgt == "cuda":
                 mm = re.fullmatch(r"int (\w+); (\w+)\s*=\s*(.+?); ?if \((\w+)\s*<\s*(\w+)\)\s*\{", on)
-                ok = mm is not None and mm.group(1) == mm.group(2) == mm.group(4) == var and mm.group(5) == "nn"
+                ok = mm is not None and mm.group(1) == mm.group(2) == mm.group(4) == var and mm.group(5) == lim
                 if ok:
                     terms = sorted(t.strip().replace(" ", "") for t in mm.group(3).split("+"))
                     ok = terms in (sorted(["blockDim.x*blockIdx.x", "threadIdx.x"]), sorted(["blockIdx.x*blockDim.x", "threadIdx.x"]))
